@@ -26,6 +26,24 @@ type boolFn struct {
 	nils   map[string]bool       // discovered nil-tested paths
 	bad    string                // dereference of a nil path
 	why    string
+	// constOf: "path=constant" -> the path holds that constant (comparisons of a
+	// member with a constant: a wildcard such as `country == ""`)
+	constOf map[string]bool
+}
+
+// constKey names the comparison of a tracked path with a constant.
+func (f *boolFn) constKey(l, r ast.Expr) string {
+	if tv, ok := f.info.Types[r]; ok && tv.Value != nil {
+		if p := f.pathOf(l); p != "" {
+			return p + "=" + tv.Value.ExactString()
+		}
+	}
+	if tv, ok := f.info.Types[l]; ok && tv.Value != nil {
+		if p := f.pathOf(r); p != "" {
+			return p + "=" + tv.Value.ExactString()
+		}
+	}
+	return ""
 }
 
 func eqKey(a, b string) string {
@@ -86,6 +104,11 @@ func (f *boolFn) eval(e ast.Expr) (bool, bool) {
 				}
 				f.nils[p] = true
 				return f.nilOf[p] == (x.Op == token.EQL), true
+			}
+			if ck := f.constKey(l, r); ck != "" && f.constOf != nil {
+				if v, has := f.constOf[ck]; has {
+					return v == (x.Op == token.EQL), true
+				}
 			}
 			pa, pb := f.pathOf(l), f.pathOf(r)
 			if pa == "" || pb == "" {
@@ -187,6 +210,8 @@ func C02(c *core.Ctx) {
 	c02Included(c)
 	c.Rule("C02-R5", "each group's amount (and surcharge) is Percent.Of(the group's stored Base)", 2)
 	rateAmountFromBase(c, "C02-R5")
+	c02MapEquality(c)
+	c02AliasedWorkingValue(c)
 }
 
 func c02Matching(c *core.Ctx) {
@@ -241,6 +266,7 @@ func c02Matching(c *core.Ctx) {
 		}
 		// discover atoms with one dry run over all-non-nil/all-equal
 		probe := &boolFn{info: info, pathOf: pathOf, nilOf: map[string]bool{}, eqOf: map[string]bool{}, atoms: map[string]bool{}, nils: map[string]bool{}}
+		constAtoms := map[string]bool{}
 		// collect atoms statically: walk all expressions
 		ast.Inspect(fd.Decl.Body, func(m ast.Node) bool {
 			if e, ok := m.(ast.Expr); ok {
@@ -257,6 +283,8 @@ func c02Matching(c *core.Ctx) {
 							}
 						} else if pa, pb := pathOf(l), pathOf(r); pa != "" && pb != "" {
 							probe.atoms[eqKey(pa, pb)] = true
+						} else if ck := probe.constKey(l, r); ck != "" {
+							constAtoms[ck] = true
 						}
 					}
 				case *ast.CallExpr:
@@ -303,16 +331,48 @@ func c02Matching(c *core.Ctx) {
 		nilPaths := []string{"R.Percent", "O.Percent", "R.Surcharge", "O.Surcharge"}
 		rows, badRows := 0, 0
 		firstBad := ""
+		var constList []string
+		for k := range constAtoms {
+			constList = append(constList, k)
+		}
+		sort.Strings(constList)
+		if len(constList) > 6 {
+			constList = constList[:6]
+		}
+		nEq := len(atomList)
 		for mask := 0; mask < 16; mask++ {
-			for eq := 0; eq < 1<<len(atomList); eq++ {
-				f := &boolFn{info: info, pathOf: pathOf, nilOf: map[string]bool{}, eqOf: map[string]bool{}, atoms: map[string]bool{}, nils: map[string]bool{}}
+			for eqc := 0; eqc < 1<<(nEq+len(constList)); eqc++ {
+				eq := eqc & (1<<nEq - 1)
+				f := &boolFn{info: info, pathOf: pathOf, nilOf: map[string]bool{}, eqOf: map[string]bool{}, atoms: map[string]bool{}, nils: map[string]bool{}, constOf: map[string]bool{}}
 				for i, np := range nilPaths {
 					f.nilOf[np] = mask&(1<<i) != 0
+				}
+				for i, k := range constList {
+					f.constOf[k] = eqc&(1<<(nEq+i)) != 0
 				}
 				eqRole := map[string]bool{}
 				for i, a := range atomList {
 					f.eqOf[a] = eq&(1<<i) != 0
 					eqRole[role[a]] = f.eqOf[a]
+				}
+				// two members found equal hold the same constants
+				consistent := true
+				for _, a := range atomList {
+					if !f.eqOf[a] {
+						continue
+					}
+					ps := strings.SplitN(a, "~", 2)
+					for _, k := range constList {
+						if strings.HasPrefix(k, ps[0]+"=") {
+							other := ps[1] + k[len(ps[0]):]
+							if v, has := f.constOf[other]; has && v != f.constOf[k] {
+								consistent = false
+							}
+						}
+					}
+				}
+				if !consistent {
+					continue
 				}
 				// infeasible rows: equality atoms of nil pointers are irrelevant; skip duplicates by forcing them true
 				if (f.nilOf["R.Percent"] || f.nilOf["O.Percent"]) && !eqRole["percent"] {
@@ -816,5 +876,197 @@ func c02Included(c *core.Ctx) {
 	}
 	if n == 0 {
 		c.Ob("C02-R4", "UNRESOLVED:Remove", token.NoPos, false, "no Amount.Remove call in package tax")
+	}
+}
+
+// c02MapEquality — C02-R6: the group identity compares extension maps with
+// tax.Extensions.Equals; that must be an equality, not a one-way containment:
+// every return of Equals that is not the constant false lies where the two
+// lengths are known equal (or both known zero), and the containment test it
+// ends in walks its argument and returns false for a missing key and for a
+// differing value.
+func c02MapEquality(c *core.Ctx) {
+	p := c.P
+	c.Rule("C02-R6", "Extensions.Equals is a two-way equality (equal lengths, then containment)", 2)
+	fd := p.Func("tax", "Extensions", "Equals")
+	if fd == nil {
+		c.Ob("C02-R6", "UNRESOLVED:tax.Extensions.Equals", token.NoPos, false, "method not found")
+		return
+	}
+	info := fd.Pkg.TypesInfo
+	recv := recvVar(fd)
+	arg := fd.Obj.Type().(*types.Signature).Params().At(0)
+	ff := core.NewFuncFlow(fd)
+	lenOf := func(e ast.Expr) *types.Var {
+		call, ok := ast.Unparen(e).(*ast.CallExpr)
+		if !ok || len(call.Args) != 1 {
+			return nil
+		}
+		if id, ok := ast.Unparen(call.Fun).(*ast.Ident); !ok || id.Name != "len" {
+			return nil
+		}
+		return core.VarOf(info, call.Args[0])
+	}
+	bad := ""
+	n := 0
+	for _, r := range ff.Flow.Returns() {
+		if !ff.Flow.Reachable(r) || len(r.Results) != 1 {
+			continue
+		}
+		if tv, ok := info.Types[ast.Unparen(r.Results[0])]; ok && tv.Value != nil && tv.Value.String() == "false" {
+			continue
+		}
+		n++
+		equalLen, zeroR, zeroA := false, false, false
+		for leaf, val := range ff.Flow.CondsAt(r) {
+			be, ok := ast.Unparen(leaf).(*ast.BinaryExpr)
+			if !ok || (be.Op != token.EQL && be.Op != token.NEQ) {
+				continue
+			}
+			holdsEq := (be.Op == token.EQL) == val
+			lx, ly := lenOf(be.X), lenOf(be.Y)
+			if lx != nil && ly != nil && ((lx == recv && ly == arg) || (lx == arg && ly == recv)) && holdsEq {
+				equalLen = true
+			}
+			if lx != nil && ly == nil {
+				if tv, ok := info.Types[ast.Unparen(be.Y)]; ok && tv.Value != nil && tv.Value.String() == "0" && holdsEq {
+					if lx == recv {
+						zeroR = true
+					}
+					if lx == arg {
+						zeroA = true
+					}
+				}
+			}
+		}
+		if !equalLen && !(zeroR && zeroA) {
+			bad = fmt.Sprintf("the return at %s can yield true although the two maps have not been found to have the same number of entries: a map that merely contains the other counts as equal, so which rate group a line joins depends on the order of the lines", p.Rel(r.Pos()))
+		}
+	}
+	c.Ob("C02-R6", fd.Name()+"#equal-lengths", fd.Decl.Pos(), bad == "" && n > 0, bad)
+	// the containment test
+	cfd := p.Func("tax", "Extensions", "Contains")
+	if cfd == nil {
+		c.Ob("C02-R6", "UNRESOLVED:tax.Extensions.Contains", token.NoPos, false, "method not found")
+		return
+	}
+	cinfo := cfd.Pkg.TypesInfo
+	crecv := recvVar(cfd)
+	carg := cfd.Obj.Type().(*types.Signature).Params().At(0)
+	okMissing, okDiffer := false, false
+	ast.Inspect(cfd.Decl.Body, func(m ast.Node) bool {
+		rs, ok := m.(*ast.RangeStmt)
+		if !ok || core.VarOf(cinfo, rs.X) != carg || rs.Key == nil || rs.Value == nil {
+			return true
+		}
+		kv, vv := core.VarOf(cinfo, rs.Key), core.VarOf(cinfo, rs.Value)
+		var got, present *types.Var
+		cff := core.NewFuncFlow(cfd)
+		ast.Inspect(rs.Body, func(k ast.Node) bool {
+			if as, ok := k.(*ast.AssignStmt); ok && len(as.Lhs) == 2 && len(as.Rhs) == 1 {
+				if ix, ok := ast.Unparen(as.Rhs[0]).(*ast.IndexExpr); ok && core.VarOf(cinfo, ix.X) == crecv && core.VarOf(cinfo, ix.Index) == kv {
+					got, present = core.VarOf(cinfo, as.Lhs[0]), core.VarOf(cinfo, as.Lhs[1])
+				}
+			}
+			return true
+		})
+		for _, r := range cff.Flow.Returns() {
+			if !(rs.Pos() <= r.Pos() && r.End() <= rs.End()) || len(r.Results) != 1 {
+				continue
+			}
+			if tv, ok := cinfo.Types[ast.Unparen(r.Results[0])]; !ok || tv.Value == nil || tv.Value.String() != "false" {
+				continue
+			}
+			for leaf, val := range cff.Flow.CondsAt(r) {
+				l := ast.Unparen(leaf)
+				if present != nil && core.VarOf(cinfo, l) == present && !val {
+					okMissing = true
+				}
+				if be, ok := l.(*ast.BinaryExpr); ok && got != nil && vv != nil {
+					a, b := core.VarOf(cinfo, be.X), core.VarOf(cinfo, be.Y)
+					if ((a == got && b == vv) || (a == vv && b == got)) && ((be.Op == token.NEQ) == val) {
+						okDiffer = true
+					}
+				}
+			}
+		}
+		return true
+	})
+	c.Ob("C02-R6", cfd.Name()+"#entrywise", cfd.Decl.Pos(), okMissing && okDiffer,
+		"Extensions.Contains does not return false both for a key of its argument that is missing and for one whose value differs")
+}
+
+// c02AliasedWorkingValue — C02-R7: where the address of a working variable of
+// the calculation (a parameter or local amount such as `zero`) is stored in a
+// row (`ct.Surcharge = &zero`), the row's member is replaced, never written
+// through: `*ct.Surcharge = …` would change the variable for everything that
+// reads it afterwards (every later exempt row's `rt.Amount = zero`).
+func c02AliasedWorkingValue(c *core.Ctx) {
+	p := c.P
+	c.Rule("C02-R7", "no store through a row member that may hold the address of a working variable", 0)
+	n := 0
+	for _, fd := range p.Funcs(p.Pkg("tax")) {
+		info := fd.Pkg.TypesInfo
+		type alias struct {
+			loc ast.Expr
+			v   *types.Var
+		}
+		var aliases []alias
+		ast.Inspect(fd.Decl.Body, func(m ast.Node) bool {
+			as, ok := m.(*ast.AssignStmt)
+			if !ok || len(as.Lhs) != len(as.Rhs) {
+				return true
+			}
+			for i, r := range as.Rhs {
+				u, ok := ast.Unparen(r).(*ast.UnaryExpr)
+				if !ok || u.Op != token.AND {
+					continue
+				}
+				v := core.VarOf(info, u.X)
+				if v == nil || v.IsField() || core.FieldOf(info, as.Lhs[i]) == nil {
+					continue
+				}
+				// a variable declared in the same block as the store and not read after it is a
+				// fresh cell (x := …; p.F = &x); anything else is a working variable
+				if _, isParam := paramIndex(fd.Obj, v); !isParam {
+					readLater := false
+					ast.Inspect(fd.Decl.Body, func(k ast.Node) bool {
+						if id, ok := k.(*ast.Ident); ok && info.Uses[id] == types.Object(v) && id.Pos() > as.End() {
+							readLater = true
+						}
+						return true
+					})
+					if !readLater {
+						continue
+					}
+				}
+				aliases = append(aliases, alias{as.Lhs[i], v})
+			}
+			return true
+		})
+		for _, al := range aliases {
+			n++
+			bad := ""
+			ast.Inspect(fd.Decl.Body, func(m ast.Node) bool {
+				var lhs []ast.Expr
+				switch x := m.(type) {
+				case *ast.AssignStmt:
+					lhs = x.Lhs
+				case *ast.IncDecStmt:
+					lhs = []ast.Expr{x.X}
+				}
+				for _, l := range lhs {
+					if st, ok := ast.Unparen(l).(*ast.StarExpr); ok && sameLoc(info, st.X, al.loc) {
+						bad = p.Rel(l.Pos())
+					}
+				}
+				return true
+			})
+			c.Ob("C02-R7", fmt.Sprintf("%s#%s=&%s", fd.Name(), types.ExprString(al.loc), al.v.Name()), al.loc.Pos(), bad == "",
+				fmt.Sprintf("%s may hold the address of `%s`, which the function goes on reading, and is written through at %s: every later use of `%s` sees the accumulated value", types.ExprString(al.loc), al.v.Name(), bad, al.v.Name()))
+		}
+	}
+	if n == 0 {
+		c.Note("C02-R7: no row member is given the address of a working variable in package tax")
 	}
 }
